@@ -135,6 +135,11 @@ def s_nested_def(const, vid=None):
     return {"k": "nested_def", "const": const, "var": vid}
 
 
+def s_block(const, inside=False):
+    """A loop followed by a statement that is either inside or after the loop body (differs by indentation only)."""
+    return {"k": "block", "const": const, "inside": inside}
+
+
 def s_clsattr(cid):
     """Reads a class-level constant through the class name (no instance, no call): x = K.LEVEL"""
     return {"k": "clsattr", "cls": cid}
@@ -334,6 +339,9 @@ def _render_fn_lines(p, fid, ctx, prelude):
     lines.append("    r = [%r, %d%s]" % (f["name"], f["const"], "".join(", " + n for n, _ in f["params"])))
     # a comprehension: its target is local to the function whatever the module defines under that name
     lines.append("    r.append([cv * 2 for cv in (1, 2)])")
+    if f.get("uses_builtins"):
+        # calls of Python builtins (elsewhere a module variable may legitimately carry one of these names)
+        lines.append("    r.append((max(1, 2), format(3), list(filter(None, (0, 1))), sorted([2, 1])))")
     for (vid, access) in f["reads"]:
         lines.append("    r.append(%s)" % ctx.var_expr(vid, access))
     if f.get("fail") and f["fail"].get("when") == "start":
@@ -396,6 +404,11 @@ def _render_fn_lines(p, fid, ctx, prelude):
             lines.append("    x%d = %s(%s).%s()" % (i, ctx.cls_expr(s["cls"]), s["arg"], c["method"]))
         elif k == "clsattr":
             lines.append("    x%d = %s.LEVEL" % (i, ctx.cls_expr(s["cls"])))
+        elif k == "block":
+            lines.append("    x%d = []" % i)
+            lines.append("    for bi in (0, 1):")
+            lines.append("        x%d.append(%d)" % (i, s["const"]))
+            lines.append("%sx%d.append(%d)" % ("        " if s["inside"] else "    ", i, s["const"] + 1))
         elif k == "lazy_call":
             zn = p["lazy"]["name"]
             if "import %s" % zn not in ctx.local_imports:
@@ -660,6 +673,15 @@ def e_set_lazy(p, what):
     else:
         q["lazy"]["var"] = str(int(q["lazy"]["var"]) + 1)
     return q, {"kind": "set_lazy_" + what, "site": ["Z", q["lazy"]["name"]]}
+
+
+def e_toggle_indent(p, fid, si):
+    """Moves the last statement of a block into / out of the loop: only leading whitespace of one line changes."""
+    q = clone(p)
+    st = q["fns"][fid]["stmts"][si]
+    assert st["k"] == "block"
+    st["inside"] = not st["inside"]
+    return q, {"kind": "toggle_indent", "fn": q["fns"][fid]["name"], "site": ["T", q["fns"][fid]["name"]]}
 
 
 def e_set_cls_attr(p, cid, delta=1000):
